@@ -2,8 +2,9 @@
 import sys, traceback
 def main():
     try:
-        from selftest import test_peg
+        from selftest import test_peg, test_optab
         test_peg.run()
+        test_optab.run()
     except Exception:
         traceback.print_exc()
         return 2
